@@ -247,6 +247,7 @@ type genState struct {
 	nconf    int
 	variant  string
 	nodeCap  int64
+	phSize   map[string]CoreRes
 }
 
 func (g *genState) pick(l []string) string {
@@ -300,6 +301,9 @@ func (g *genState) opAppAdd() CoreOp {
 	if g.variant == "gang" {
 		gangP = 70
 	}
+	if g.variant == "swap" {
+		gangP = 95
+	}
 	if g.r.Chance(gangP) {
 		tgs := []string{"tg-a"}
 		if g.r.Chance(30) {
@@ -344,7 +348,26 @@ func (g *genState) opAsk() CoreOp {
 	}
 	if tgs, ok := g.gangApps[app]; ok {
 		op.TaskGroup = g.pick(tgs)
-		if g.r.Chance(60) {
+		if g.variant == "swap" {
+			// placeholders of a task group all have the size phSize; real asks are smaller on every type
+			if g.phSize == nil {
+				g.phSize = map[string]CoreRes{}
+			}
+			sz, ok := g.phSize[app+op.TaskGroup]
+			if !ok {
+				sz = g.r.res(g.ntypes, 3, 6, false)
+				g.phSize[app+op.TaskGroup] = sz
+			}
+			if g.r.Chance(50) {
+				op.Ph = true
+				op.Res = sz
+			} else {
+				op.Res = CoreRes{}
+				for k, v := range sz {
+					op.Res[k] = max(1, v-int64(g.r.Intn(3)))
+				}
+			}
+		} else if g.r.Chance(60) {
 			op.Ph = true
 		} else if g.r.Chance(20) {
 			op.TaskGroup = ""
@@ -469,7 +492,10 @@ func (g *genState) opMalformed() CoreOp {
 // coreMix gives the per-mille thresholds of the op mix per variant: sched, app_add, ask, release, bound,
 // foreign, foreign_remove, node_add, node_update, drain, node_remove, app_remove, fire_ph, fire_state, reload, clean, update, malformed(rest)
 var coreMix = map[string][]int{
-	"":          {300, 100, 200, 100, 30, 30, 15, 15, 15, 15, 15, 20, 25, 25, 20, 15, 15},
+	"":          {300, 100, 200, 100, 30, 30, 15, 15, 15, 15, 15, 20, 25, 25, 20, 15, 30},
+	// gang applications whose real asks are smaller than their placeholders, predicate denials that push the
+	// replacement to another node, node removals while swaps are in flight, few confirmations
+	"swap":      {330, 80, 260, 50, 10, 10, 5, 15, 10, 10, 60, 15, 30, 25, 0, 5, 15},
 	"gang":      {300, 110, 230, 120, 15, 10, 5, 10, 10, 10, 20, 15, 60, 45, 5, 5, 10},
 	"reserve":   {320, 80, 250, 110, 5, 10, 5, 5, 10, 40, 40, 40, 15, 10, 5, 5, 10},
 	"reload":    {250, 110, 180, 80, 20, 10, 5, 15, 10, 10, 10, 25, 15, 25, 150, 60, 10},
@@ -497,7 +523,13 @@ func genCoreCase(rng *Rng, maxOps int, variant string) (*CoreCase, error) {
 	if variant == "reserve" {
 		resDelay = true
 	}
+	if variant == "swap" {
+		preempt = false
+	}
 	w := CoreWorld{Configs: []string{coreConfigYAML(tree, preempt, policy)}, ResDelayOn: resDelay, ResWaitOn: resDelay && rng.Chance(map[bool]int{true: 40, false: 25}[variant == "reserve"]), PredDeny: []int{0, 0, 10, 30}[rng.Intn(4)], Seed: rng.Next()}
+	if variant == "swap" {
+		w.PredDeny = []int{20, 35, 50}[rng.Intn(3)]
+	}
 	nconf := rng.Intn(3)
 	cur := tree
 	for i := 0; i < nconf; i++ {
